@@ -75,16 +75,20 @@ static std::vector<std::string> needed_words(const std::vector<int> & ks) {
 	return need;
 }
 
+// modes 2 and 3 (only for documents that end with the CriticMarkup tail): the library's own accept / reject option on text that still carries the marks
+static bool g_critic_tail = false;
+static const char * MODE_NAMES[] = {"mmd", "compat", "mmd+accept", "mmd+reject"};
 static void run_doc(const std::string & doc, int len, bool first_plain) {
 	S.docs++;
-	for (int f = 0; f < 7; f++) for (int m = 0; m < 2; m++) {
+	for (int f = 0; f < 7; f++) for (int m = 0; m < (g_critic_tail ? 4 : 2); m++) {
 		std::string out;
-		C02Result r = c02_convert(doc, C02_FMTS[f], C02_MODES[m], &out);
+		unsigned long mode = m < 2 ? C02_MODES[m] : (C02_MODES[0] | (m == 2 ? EXT_CRITIC_ACCEPT : EXT_CRITIC_REJECT));
+		C02Result r = c02_convert(doc, C02_FMTS[f], mode, &out);
 		S.conv++;
 		if (len >= 2 && r.block_kinds >= 2) { S.nontrivial++; if (S.samples.size() < 4 && f == 0 && m == 0 && (S.docs % 97 == 1)) S.samples.push_back(esc(doc)); }
 		if (r.failure.empty() && first_plain && (f <= 4) && out.find("ztext") == std::string::npos) { r.failure = "text-lost"; r.detail = "first plain line does not appear in the output"; }
 		if (r.failure.empty() && f <= 4) {
-			for (const std::string & w : g_need) if (out.find(w) == std::string::npos) { r.failure = "word-lost:" + w; r.detail = "the word '" + w + "' of a line that is always printed does not appear in the output"; break; }
+			for (const std::string & w : g_need) if (!(m == 2 && w == "zdel") && !(m == 3 && w == "zadd") && out.find(w) == std::string::npos) { r.failure = "word-lost:" + w; r.detail = "the word '" + w + "' of a line that is always printed does not appear in the output"; break; }
 			if (r.failure.empty() && f == 0 && m == 0) for (const std::string & w : g_need_html) if (out.find(w) == std::string::npos) { r.failure = "word-lost:" + w; r.detail = "the text '" + w + "' of a definition that the document calls does not appear in the HTML output"; break; }
 		}
 		if (!r.failure.empty()) {
@@ -92,7 +96,7 @@ static void run_doc(const std::string & doc, int len, bool first_plain) {
 			if (S.fails.size() < 20) {
 				std::string name = outdir + "/fail-" + std::to_string(S.fails.size()) + ".txt";
 				std::ofstream o(name); o << "fmt=" << f << " mode=" << m << "\n" << doc;
-				S.fails.push_back(r.failure + "|" + C02_FMT_NAMES[f] + "|" + (m ? "compat" : "mmd") + "|" + name + "|" + esc(r.detail));
+				S.fails.push_back(r.failure + "|" + C02_FMT_NAMES[f] + "|" + MODE_NAMES[m] + "|" + name + "|" + esc(r.detail));
 			}
 		}
 	}
@@ -112,9 +116,14 @@ int main(int argc, char ** argv) {
 	if (argc >= 3 && !strcmp(argv[1], "replay")) {
 		std::ifstream f(argv[2]); std::string head; std::getline(f, head); std::string doc((std::istreambuf_iterator<char>(f)), std::istreambuf_iterator<char>());
 		int fi = 0, mi = 0; sscanf(head.c_str(), "fmt=%d mode=%d", &fi, &mi);
-		std::string out; C02Result r = c02_convert(doc, C02_FMTS[fi % 7], C02_MODES[mi % 2], &out);
+		mi %= 4;
+		unsigned long mode = mi < 2 ? C02_MODES[mi] : (C02_MODES[0] | (mi == 2 ? EXT_CRITIC_ACCEPT : EXT_CRITIC_REJECT));
+		std::string out; C02Result r = c02_convert(doc, C02_FMTS[fi % 7], mode, &out);
 		if (r.failure.empty() && doc.compare(0, 6, "ztext ") == 0 && (fi <= 4) && out.find("ztext") == std::string::npos) { r.failure = "text-lost"; }
-		if (!r.failure.empty()) { printf("C02-FAIL %s|%s|%s|%s\n", r.failure.c_str(), C02_FMT_NAMES[fi % 7], mi ? "compat" : "mmd", r.detail.c_str()); return 1; }
+		if (r.failure.empty() && fi <= 4 && doc.find("\n\nzlast *zemph") != std::string::npos)
+			for (const char * w_ : {"zlast", "zemph", "zstrong", "zlink", "zhigh", "zadd", "zdel"})
+				if (doc.find(w_) != std::string::npos && !(mi == 2 && !strcmp(w_, "zdel")) && !(mi == 3 && !strcmp(w_, "zadd")) && out.find(w_) == std::string::npos) { r.failure = std::string("word-lost:") + w_; break; }
+		if (!r.failure.empty()) { printf("C02-FAIL %s|%s|%s|%s\n", r.failure.c_str(), C02_FMT_NAMES[fi % 7], MODE_NAMES[mi], r.detail.c_str()); return 1; }
 		printf("replay ok\n"); return 0;
 	}
 	if (argc >= 6 && !strcmp(argv[1], "enum")) {
@@ -138,8 +147,11 @@ int main(int argc, char ** argv) {
 			// end of a long document is still rendered in full (not claimed behind raw HTML / comments, which some writers omit by design)
 			int ka = (int)(idx % NK), kb = (int)(idx / NK);
 			auto raw = [](int k) { return k == 14 || k == 15 || k == 27 || k == 28; };
-			if (!raw(ka) && !raw(kb)) { doc += "\n\nzlast *zemph **zstrong** [zlink](http://x/)* end\n"; g_need.push_back("zlast"); g_need.push_back("zemph"); g_need.push_back("zstrong"); g_need.push_back("zlink"); }
+			g_critic_tail = false;
+			if (!raw(ka) && !raw(kb)) { doc += "\n\nzlast *zemph **zstrong** [zlink](http://x/)* {==zhigh==} {++zadd++}{--zdel--} {>>zcomment<<} end\n"; g_critic_tail = true;
+				for (const char * w_ : {"zlast", "zemph", "zstrong", "zlink", "zhigh", "zadd", "zdel"}) g_need.push_back(w_); }
 			run_doc(doc, 2 * reps, false);
+			g_critic_tail = false;
 		}
 		dump(); return 0;
 	}
